@@ -70,3 +70,10 @@ impl From<&AddressFilter> for crate::rodbus::server::AddressFilter {
 //@|        r matches Ok(p) ==> pointee(p).inner.cfg_max_sessions() == max_sessions as usize,
 //@|        r matches Ok(p) ==> pointee(p).inner.cfg_decode() == crate::helpers::conversions::spec_decode_level(decode_level),
 //@|        r matches Ok(p) ==> (pointee(p).inner.cfg_tls() matches Some(c) && c.0 == tls_config && (c.1 is Some <==> auth_handler is Some)),
+
+// [C19] a transaction runs on the database of the unit it names, through the reference that stands for that unit's held lock
+// (the lock is what makes the transaction atomic for clients: get_reply holds the same lock for a whole reply); an unknown unit id
+// is reported and the callback is not run
+//@fn ffi/rodbus-ffi/src/server.rs | server_update_database | tags=C19 | r24 r10 r10id=1
+//@|    ensures !old(server).map.has(crate::rodbus::UnitId { value: unit_id }) ==> r == Err::<(), ffi::ParamError>(ffi::ParamError::InvalidUnitId),
+//@|        old(server).map.has(crate::rodbus::UnitId { value: unit_id }) ==> r is Ok && transaction.ran(),
